@@ -79,10 +79,11 @@ def cmd_check(args: argparse.Namespace) -> int:
     print(f"[sigsim] property={prop} tier={tier} VERIF_SEED={seed} runs={n_runs} budget_s={budget}", flush=True)
     recs = core.run_batch(machine, tier, n_runs, budget, workers=args.workers)
     wall_batch = time.monotonic() - t0
-    return report(machine, prop, tier, seed, recs, t0, wall_batch)
+    return report(machine, prop, tier, seed, recs, t0, wall_batch, write=not args.no_evidence)
 
 
-def report(machine: Any, prop: str, tier: str, seed: int, recs: list[dict], t0: float, wall_batch: float) -> int:
+def report(machine: Any, prop: str, tier: str, seed: int, recs: list[dict], t0: float, wall_batch: float,
+           write: bool = True) -> int:
     from sigsim import core
 
     harness = [r for r in recs if "harness" in r]
@@ -206,7 +207,8 @@ def report(machine: Any, prop: str, tier: str, seed: int, recs: list[dict], t0: 
     extra = getattr(machine, "extra_coverage", None)
     if extra is not None:
         coverage.update(extra(good))
-    core.write_evidence(prop, tier, seed, coverage, wall, len(new_violations), machine.ASSUMPTIONS)
+    if write:
+        core.write_evidence(prop, tier, seed, coverage, wall, len(new_violations), machine.ASSUMPTIONS)
 
     for line in known_lines:
         print(line)
@@ -262,10 +264,25 @@ def cmd_digest(args: argparse.Namespace) -> int:
     preload()
     recs = core.run_batch(machine, "quick", args.runs, None, workers=args.workers, start_index=args.start)
     bad = [r for r in recs if "harness" in r]
-    print(json.dumps({"digest": core.batch_digest(recs), "schedule": core.batch_digest(recs, "schedule_digest"),
-                      "harness": len(bad), "n": len(recs),
-                      "violations": sum(1 for r in recs if r.get("violation"))}))
+    out = {"digest": core.batch_digest(recs), "schedule": core.batch_digest(recs, "schedule_digest"),
+           "harness": len(bad), "n": len(recs), "violations": sum(1 for r in recs if r.get("violation"))}
+    if args.records:
+        out["records"] = {str(r["index"]): r.get("digest") for r in recs}
+    if bad:
+        out["harness_detail"] = str(bad[0])[:1500]
+    print(json.dumps(out))
     return 2 if bad else 0
+
+
+def cmd_one(args: argparse.Namespace) -> int:
+    """Execute run <index> directly in this (cold) interpreter - no pristine parent, no preload."""
+    from sigsim import core
+
+    machine = load_machine(args.property.upper())
+    seed = core.run_seed(machine.PROPERTY, args.index)
+    rec = core._one_run((machine, args.index, seed, "quick"))
+    print(json.dumps({"index": args.index, "digest": rec["digest"], "violation": bool(rec.get("violation"))}))
+    return 0
 
 
 def main() -> int:
@@ -283,20 +300,27 @@ def main() -> int:
     p.add_argument("--runs", type=int, default=200)
     p.add_argument("--start", type=int, default=0)
     p.add_argument("--workers", type=int, default=None)
+    p.add_argument("--records", action="store_true")
+    p = sub.add_parser("one")
+    p.add_argument("property")
+    p.add_argument("--index", type=int, default=0)
     p = sub.add_parser("run")
     p.add_argument("property")
     p.add_argument("--tier", default=None)
     p.add_argument("--runs", type=int, default=None)
     p.add_argument("--budget", type=float, default=None)
     p.add_argument("--workers", type=int, default=None)
+    p.add_argument("--no-evidence", action="store_true")
     argv = sys.argv[1:]
-    if argv and argv[0] not in ("replay", "selftest", "digest", "run", "-h", "--help"):
+    if argv and argv[0] not in ("replay", "selftest", "digest", "run", "one", "-h", "--help"):
         argv = ["run"] + argv
     args = ap.parse_args(argv)
     if args.cmd == "replay":
         return cmd_replay(args)
     if args.cmd == "digest":
         return cmd_digest(args)
+    if args.cmd == "one":
+        return cmd_one(args)
     if args.cmd == "selftest":
         from sigsim import selftest
 
